@@ -83,7 +83,7 @@ Proof.
   eexists; eexists. repeat split; vm_compute; reflexivity.
 Qed.
 
-(** the repaired rotate on the same three inputs: on the cone to 1e-12, finite *)
+(** the candidate repair [rotate_new] (NOT in the tree) on the same three inputs: on the cone to 1e-12, finite *)
 Lemma rotate_new_witnesses :
   let rot := make_unit_vector f10_rot_f in
   let d := from_spherical 0.5 0 in
